@@ -204,11 +204,14 @@ def worker_batch(job: dict) -> dict:
                                   "clients": scn["clients"], "faults": scn.get("faults", []), "schedule": run.sim.schedule[:200],
                                   "events": trim_events(run.sim.events, 120),
                                   "outcomes": {str(kk): _outcome_json(vv) for kk, vv in run.outcomes.items()}})
-              if F and len(violations) < 40:
-                  violations.append({"seed": seed, "i": i, "k": k, "strategy": strategy, "sseed": sseed, "salt": k,
-                                     "record": rec, "schedule": list(run.sim.schedule), "findings": F[:6],
-                                     "digest": run.digest(), "scenario": scn})
               if F:
+                  # keep a few runs per SIGNATURE (not per worker): a flood of one (possibly known) finding must never crowd
+                  # out a different one; within a run the rarest signatures are listed first
+                  Fs = sorted(F, key=lambda f: other["|".join(f["sig"])])
+                  if any(other["|".join(f["sig"])] < 4 for f in F) and len(violations) < 300:
+                      violations.append({"seed": seed, "i": i, "k": k, "strategy": strategy, "sseed": sseed, "salt": k,
+                                         "record": rec, "schedule": list(run.sim.schedule), "findings": Fs[:6],
+                                         "digest": run.digest(), "scenario": scn})
                   stats["runs_with_findings"] += 1
                   for f in F:
                       other["|".join(f["sig"])] += 1
